@@ -631,3 +631,8 @@ def check(cx):
     # ---- C05.10 (construct shared with C06.10) ---------------------------------------------------------------------
     cx.include(c06, {"C06.10"}, "C05.10", "shared with C06.10: a merge join gets its inputs sorted on every key column (the ordering check "
                "accepts no prefix); otherwise a join on a composite key pairs fewer rows than SQL prescribes", floor=1)
+
+    # ---- C05.11 (construct shared with C19.1) ---------------------------------------------------------------------------
+    from . import c19
+    cx.include(c19, {"C19.1"}, "C05.11", "shared with C19.1: IN-lists, DISTINCT, GROUP BY and hash joins look values up by hash; equal values (Int 1 and "
+               "Double 1.0) must hash equally or `d IN (1, 3)` misses rows that `d = 1 OR d = 3` returns", floor=8)
